@@ -29,68 +29,55 @@ impl Ipv6Address {
         )
     }
 
-    /// Create an IPv6 address from a string that uses zero compression
+    /// Create an IPv6 address from a string that may use zero compression
+    /// i.e. eight groups of one to four hexadecimal digits separated by
+    /// colons, where a single '::' may replace one or more zero groups.
     pub fn from_str(s: &str) -> Result<Self, &'static str> {
-        // Split the string by colons to get each segment
-        let segments: Vec<&str> = s.split(':').collect();
-
-        // Ensure we have at most 8 segments for a valid IPv6 address
-        if segments.len() > 8 {
+        // Split at the zero compression marker, if there is one
+        let (head, tail, compressed) = match s.find("::") {
+            Some(pos) => (&s[..pos], &s[pos + 2..], true),
+            None => (s, "", false),
+        };
+        // Only one '::' is allowed
+        if tail.contains("::") {
+            return Err("Invalid IPv6 address format");
+        }
+        let head = Self::parse_groups(head)?;
+        let tail = Self::parse_groups(tail)?;
+        let count = head.len() + tail.len();
+        // '::' stands for at least one group. Without it, all 8 are needed
+        if (compressed && count > 7) || (!compressed && count != 8) {
             return Err("Invalid IPv6 address format");
         }
 
+        // Groups before '::' fill from the start and those after it
+        // fill from the end. The groups in between remain zero.
         let mut parts = [0u16; 8];
-        let mut part_index = 0; // Index to fill in the parts array
-
-        // Flags to handle zero compression
-        let mut compressed = false;
-        let mut compression_index = 0; // Index where compression starts
-
-        for (i, &segment) in segments.iter().enumerate() {
-            if segment.is_empty() {
-                if compressed {
-                    return Err("Invalid IPv6 address format");
-                }
-                compressed = true;
-                compression_index = i;
-                continue;
-            }
-
-            if part_index >= 8 {
-                return Err("Invalid IPv6 address format");
-            }
-
-            // Convert segment to u16 value
-            match u16::from_str_radix(segment, 16) {
-                Ok(value) => parts[part_index] = value,
-                Err(_) => return Err("Invalid segment in IPv6 address"),
-            }
-
-            part_index += 1;
-        }
-
-        // Handle zero compression
-        if compressed {
-            // Calculate the number of segments we need to shift
-            let shift = 8 - part_index;
-
-            // Shift parts to make room for the compressed segments
-            for i in (compression_index + shift..8).rev() {
-                parts[i] = parts[i - shift];
-            }
-
-            // Fill in the compressed segments with zeros
-            for part in parts.iter_mut().skip(compression_index).take(shift) {
-                *part = 0;
-            }
-        } else if part_index != 8 {
-            // If no compression, ensure we have exactly 8 parts
-            return Err("Invalid IPv6 address format");
-        }
+        parts[..head.len()].copy_from_slice(&head);
+        parts[8 - tail.len()..].copy_from_slice(&tail);
 
         Ok(Self(
             parts[0], parts[1], parts[2], parts[3], parts[4], parts[5], parts[6], parts[7],
         ))
+    }
+
+    /// Parse colon separated groups of hexadecimal digits
+    fn parse_groups(s: &str) -> Result<Vec<u16>, &'static str> {
+        if s.is_empty() {
+            return Ok(Vec::new());
+        }
+        let mut groups = Vec::new();
+        for segment in s.split(':') {
+            // No sign is allowed, which from_str_radix would accept
+            if segment.is_empty() || segment.len() > 4 || segment.starts_with('+') {
+                return Err("Invalid segment in IPv6 address");
+            }
+            match u16::from_str_radix(segment, 16) {
+                Ok(value) => groups.push(value),
+                Err(_) => return Err("Invalid segment in IPv6 address"),
+            }
+        }
+        Ok(groups)
     }
 }
 
